@@ -35,12 +35,97 @@ func combos() []combo {
 	return out
 }
 
+// probe: GetOutKeystream(n), then a real record that the peer must accept; both oracles and one case.
+// Returns false when the connection is no longer usable.
+func probe(c *vh.Ctx, p *pair, cb combo, key, scenario string, n int) bool {
+	explicit := 0
+	if cb.kind == 4 {
+		explicit = 8
+	}
+	_, out0 := tls.VerifRecordState(p.client.Conn)
+	ks, err := p.client.GetOutKeystream(n)
+	_, out1 := tls.VerifRecordState(p.client.Conn)
+	in := map[string]any{"suite": fmt.Sprintf("0x%04x", cb.suite), "version": fmt.Sprintf("0x%04x", cb.version), "n": n,
+		"seq": out0.Seq, "scenario": scenario}
+	if err != nil {
+		c.Fail("c28-error/"+key, "GetOutKeystream failed on an AEAD connection", in, err.Error(), "keystream")
+		return false
+	}
+	// the next write: at least n bytes so that the next record carries n plaintext bytes
+	data := make([]byte, n+c.Rng.Intn(40))
+	c.Rng.Read(data)
+	if len(data) > 16384 {
+		data = data[:16384]
+	}
+	if len(data) == 0 {
+		data = []byte{byte(c.Rng.Intn(256))}
+	}
+	p.crec.take()
+	errc := make(chan error, 1)
+	go func() { _, err := p.client.Write(data); errc <- err }()
+	got := make([]byte, len(data))
+	p.server.SetReadDeadline(time.Now().Add(10 * time.Second))
+	_, rerr := io.ReadFull(p.server, got)
+	werr := <-errc
+	recs := splitRecords(p.crec.take())
+	// oracle 1: the peer still accepts and reads what was written
+	if werr != nil || rerr != nil || !bytes.Equal(got, data) {
+		c.Fail("c28-peer/"+key+"/"+scenario, "after GetOutKeystream the peer no longer reads what the client writes", in,
+			fmt.Sprint("write: ", werr, " read: ", rerr), "peer reads the written bytes")
+		return false
+	}
+	if len(recs) == 0 || recs[0].Typ != 23 || recs[0].Len < explicit+n {
+		c.Fail("c28-record/"+key, "next application data record shorter than n", in, fmt.Sprint(len(recs)), "one record with n payload bytes")
+		return false
+	}
+	// oracle 2 (the property): ct[i] = pt[i] xor ks[i] for the first n bytes after the explicit nonce
+	ct := recs[0].Body[explicit:]
+	bad := -1
+	if len(ks) < n {
+		bad = len(ks)
+	}
+	for i := 0; i < n && bad < 0; i++ {
+		if ct[i] != data[i]^ks[i] {
+			bad = i
+		}
+	}
+	if bad >= 0 {
+		c.Fail("c28-xor/"+key+"/"+scenario, "GetOutKeystream(n) xor next plaintext differs from the next record's ciphertext", in,
+			map[string]any{"first_bad_index": bad, "ks_len": len(ks)}, "equal on the first n bytes")
+	}
+	// correspondence: framing facts the model predicts
+	var nonce []byte
+	if explicit > 0 {
+		nonce = recs[0].Body[:explicit]
+	}
+	c.Case("ks", fmt.Sprintf("(CKs %d %d %d %d %d (%d, %d, %d, %d, %d, %s))", cb.version, cb.kind, out0.Seq, n, len(data),
+		len(ks), out1.Seq, recs[0].Typ, recs[0].Vers, recs[0].Len, vh.Bytes(nonce)),
+		fmt.Sprintf("%s/%s/%d/%d", key, scenario, out0.Seq, n), n > 0, in)
+	c.Count("probe_" + scenario)
+	return true
+}
+
+// plainWrite sends one small record without calling GetOutKeystream (to move the sequence number on).
+func plainWrite(p *pair) error {
+	errc := make(chan error, 1)
+	go func() { _, err := p.client.Write([]byte{0x5a}); errc <- err }()
+	var b [1]byte
+	p.server.SetReadDeadline(time.Now().Add(10 * time.Second))
+	_, rerr := io.ReadFull(p.server, b[:])
+	if werr := <-errc; werr != nil {
+		return werr
+	}
+	return rerr
+}
+
 func run(c *vh.Ctx) {
 	certs := newTestCerts()
 	lens := []int{0, 1, 15, 16, 17, 1000, 16384}
-	rounds := 3
+	// repeated calls with equal, shrinking and growing lengths
+	pattern := []int{1000, 1000, 16, 17, 5000, 100, 100, 16384, 3}
+	rounds := 1
 	if c.Tier != "quick" {
-		rounds = 8
+		rounds = 6
 	}
 	for _, cb := range combos() {
 		key := fmt.Sprintf("%04x/%04x", cb.suite, cb.version)
@@ -49,78 +134,96 @@ func run(c *vh.Ctx) {
 			c.Fail("c28-handshake/"+key, "handshake for an AEAD suite the Go server implements did not complete", key, err.Error(), "handshake completes")
 			continue
 		}
-		explicit := 0
-		if cb.kind == 4 {
-			explicit = 8
-		}
 		ok := true
 		for round := 0; round < rounds && ok; round++ {
 			for _, n := range lens {
-				if c.Tier != "quick" && round >= 3 {
+				if round >= 1 {
 					n = c.Rng.Intn(16385)
 				}
-				_, out0 := tls.VerifRecordState(p.client.Conn)
-				ks, err := p.client.GetOutKeystream(n)
-				_, out1 := tls.VerifRecordState(p.client.Conn)
-				in := map[string]any{"suite": fmt.Sprintf("0x%04x", cb.suite), "version": fmt.Sprintf("0x%04x", cb.version), "n": n, "seq": out0.Seq}
-				if err != nil {
-					c.Fail("c28-error/"+key, "GetOutKeystream failed on an AEAD connection", in, err.Error(), "keystream")
-					ok = false
+				if ok = probe(c, p, cb, key, "lens", n); !ok {
 					break
 				}
-				// the next write: at least n bytes so that the next record carries n plaintext bytes
-				extra := c.Rng.Intn(40)
-				data := make([]byte, n+extra)
-				c.Rng.Read(data)
-				if len(data) > 16384 {
-					data = data[:16384]
-				}
-				if len(data) == 0 {
-					data = []byte{byte(c.Rng.Intn(256))}
-				}
-				p.crec.take()
-				errc := make(chan error, 1)
-				go func() { _, err := p.client.Write(data); errc <- err }()
-				got := make([]byte, len(data))
-				p.server.SetReadDeadline(time.Now().Add(10 * time.Second))
-				_, rerr := io.ReadFull(p.server, got)
-				werr := <-errc
-				recs := splitRecords(p.crec.take())
-				// oracle 1: the peer still accepts and reads what was written
-				if werr != nil || rerr != nil || !bytes.Equal(got, data) {
-					c.Fail("c28-peer/"+key, "after GetOutKeystream the peer no longer reads what the client writes", in,
-						fmt.Sprint("write: ", werr, " read: ", rerr), "peer reads the written bytes")
-					ok = false
-					break
-				}
-				if len(recs) == 0 || recs[0].Typ != 23 || recs[0].Len < explicit+n {
-					c.Fail("c28-record/"+key, "next application data record shorter than n", in, fmt.Sprint(len(recs)), "one record with n payload bytes")
-					ok = false
-					break
-				}
-				// oracle 2 (the property): ct[i] = pt[i] xor ks[i] for the first n bytes after the explicit nonce
-				ct := recs[0].Body[explicit:]
-				bad := -1
-				if len(ks) < n {
-					bad = len(ks)
-				}
-				for i := 0; i < n && bad < 0; i++ {
-					if ct[i] != data[i]^ks[i] {
-						bad = i
+			}
+		}
+		for _, n := range pattern {
+			if !ok {
+				break
+			}
+			ok = probe(c, p, cb, key, "pattern", n)
+		}
+		// the first carry of the record counter: calls right before/at/after record 254..258 of these keys
+		for ok {
+			_, o := tls.VerifRecordState(p.client.Conn)
+			if o.Seq >= 253 {
+				break
+			}
+			if err := plainWrite(p); err != nil {
+				c.Fail("c28-peer/"+key+"/advance", "plain writes stopped working", key, err.Error(), "peer reads")
+				ok = false
+			}
+		}
+		for i := 0; i < 6 && ok; i++ {
+			ok = probe(c, p, cb, key, "carry", []int{16, 1, 33}[i%3])
+		}
+		p.close()
+	}
+	// histories with key changes and far sequence positions: the peer is the uTLS server (it has the hooks)
+	for _, cb := range combos() {
+		if c.Tier == "quick" && cb.version != tls.VersionTLS13 && cb.suite != tls.TLS_ECDHE_ECDSA_WITH_AES_128_GCM_SHA256 &&
+			cb.suite != tls.TLS_ECDHE_RSA_WITH_CHACHA20_POLY1305 {
+			continue
+		}
+		key := fmt.Sprintf("%04x/%04x", cb.suite, cb.version)
+		p, err := handshakePairU(cb.version, cb.suite, certs, true)
+		if err != nil {
+			c.Fail("c28-handshake-u/"+key, "handshake with the uTLS server did not complete", key, err.Error(), "handshake completes")
+			continue
+		}
+		ok := probe(c, p, cb, key, "pre", 64)
+		if cb.version == tls.VersionTLS13 {
+			// key updates between calls: started by the client, and requested by the peer (the client rolls
+			// its write keys while reading the request), several generations
+			for g := 0; g < 4 && ok; g++ {
+				if g%2 == 0 {
+					if err := p.client.VerifSendKeyUpdate(c.Rng.Intn(2) == 0); err != nil {
+						c.Fail("c28-keyupdate/"+key, "client KeyUpdate failed", key, err.Error(), "ok")
+						break
+					}
+				} else {
+					err := p.userver.VerifSendKeyUpdate(true)
+					if err == nil {
+						_, err = p.server.Write([]byte{1})
+					}
+					if err == nil {
+						var b [1]byte
+						p.client.SetReadDeadline(time.Now().Add(10 * time.Second))
+						_, err = io.ReadFull(p.client, b[:])
+					}
+					if err != nil {
+						c.Fail("c28-keyupdate/"+key, "KeyUpdate requested by the peer was not processed", key, err.Error(), "ok")
+						break
 					}
 				}
-				if bad >= 0 {
-					c.Fail("c28-xor/"+key, "GetOutKeystream(n) xor next plaintext differs from the next record's ciphertext", in,
-						map[string]any{"first_bad_index": bad, "ks_len": len(ks)}, "equal on the first n bytes")
+				c.Count("key_updates")
+				for _, n := range []int{64, 64, 7} {
+					if ok = probe(c, p, cb, key, fmt.Sprintf("after-keyupdate-%d", g+1), n); !ok {
+						break
+					}
 				}
-				// correspondence: framing facts the model predicts
-				var nonce []byte
-				if explicit > 0 {
-					nonce = recs[0].Body[:explicit]
-				}
-				c.Case("ks", fmt.Sprintf("(CKs %d %d %d %d %d (%d, %d, %d, %d, %d, %s))", cb.version, cb.kind, out0.Seq, n, len(data),
-					len(ks), out1.Seq, recs[0].Typ, recs[0].Vers, recs[0].Len, vh.Bytes(nonce)),
-					fmt.Sprintf("%s/%d/%d", key, out0.Seq, n), n > 0, in)
+			}
+		}
+		// byte boundaries of the 64-bit counter: both matched halves are moved there with the hook
+		for _, sh := range []uint{16, 24, 32, 40, 48, 56} {
+			if !ok {
+				break
+			}
+			b := uint64(1)<<sh - 2
+			if err := p.client.Conn.VerifSetSeq(true, b); err != nil {
+				break
+			}
+			p.userver.VerifSetSeq(false, b)
+			for i := 0; i < 4 && ok; i++ {
+				ok = probe(c, p, cb, key, fmt.Sprintf("boundary-2^%d", sh), []int{16, 40}[i%2])
 			}
 		}
 		p.close()
